@@ -2,7 +2,8 @@
 
 Specification: specs/EvalProtocol.tla (EXTENDS CvSets, hence RdmsStore): the evaluation routines
 (eval_fixed, eval_bootstrap / _rdm / _pattern, crossval, bootstrap_crossval, eval_dual_bootstrap,
-eval_dual_bootstrap_random) as ONE protocol  Draw -> TooSmall | (MakeSets -> Fit -> Predict -> Compare
+eval_dual_bootstrap_random, and bootstrap_testset / _rdm / _pattern of boot_testset.py: fit on the sample, evaluate
+on the groups NOT drawn; keys C04/testset/...) as ONE protocol  Draw -> TooSmall | (MakeSets -> Fit -> Predict -> Compare
 -> Ceiling -> Store)* -> Aggregate  over a SYMBOLIC evaluation table: every cell says which model, at
 parameters from where (supplied / fitted on which training rows x condition sequence), restricted to
 which condition sequence, is compared with which data rows x condition sequence.  TLC explores every
@@ -31,7 +32,7 @@ from harness import evalprotocol as EP
 from harness import rdmstore as S
 from harness.core import MachineryError
 
-INVS = ['TypeOk', 'PredMatchesSample', 'LightEqFull', 'SampleIsDraw', 'FitBeforeUse', 'ThetaFromOwnFold',
+INVS = ['TypeOk', 'PredMatchesSample', 'LightEqFull', 'SampleIsDraw', 'TestIsComplementOfDraw', 'FitBeforeUse', 'ThetaFromOwnFold',
         'NaNIffTooSmall', 'OkMask', 'CeilingSameSample', 'DofRule', 'AllCellsStoredOnce']
 ACTIONS = ['DrawAny', 'TooSmall', 'MakeSetsAny', 'Fit', 'Predict', 'Compare', 'Ceiling', 'Store', 'Aggregate']
 METHODS = ['cosine', 'corr', 'spearman']
@@ -69,7 +70,7 @@ def _replay_chunk(args):
     base, lines, const, seed, thorough = args
     out = []
     agg = {'cells': 0, 'nan': 0, 'fitted': 0, 'compares': 0, 'nontriv': 0, 'var_plain': 0, 'var_corrected': 0,
-           'var_fixed': 0, 'method_sensitive': 0, 'select_sensitive': 0}
+           'var_fixed': 0, 'method_sensitive': 0, 'select_sensitive': 0, 'testset_cells': 0, 'testset_perturbed': 0}
     for k, line in enumerate(lines):
         i = base + k
         rec = json.loads(line)
@@ -80,6 +81,13 @@ def _replay_chunk(args):
         rep_draw = any(len(set(d)) < len(d) for s in rec['log'] for d in s['d'])
         if stats.get('cells', 0) > stats.get('nan', 0) and (rep_draw or EP.n_folds(rec['rc'], const['NR']) > 1):
             agg['nontriv'] += 1
+        if rec['rc']['routine'] == 'testset':
+            agg['testset_cells'] += stats.get('cells', 0) - stats.get('nan', 0)
+            if i % 5 == 0:
+                # deps(theta) / deps(score) by perturbation, draws of the behaviour forced
+                pbad, npert = EP.perturb_testset(rec, const, flavour, method, seed * 1000003 + i)
+                agg['testset_perturbed'] += npert
+                bad = list(bad) + pbad
         for key, detail in bad:
             out.append((i, key, detail, rec['rc'], rec['log'], [flavour, mode, method, fitmode, ts]))
     return len(lines), agg, out
@@ -128,7 +136,7 @@ def selftest_replay(ctx, r, const):
 
 # ------------------------------------------------------------------ I -> S
 def random_rc(rng, nr, nc, thorough):
-    fam = str(rng.choice(['fixed', 'boot', 'boot', 'boot', 'crossval', 'bootcv', 'bootcv', 'dual', 'dualrand']))
+    fam = str(rng.choice(['fixed', 'boot', 'boot', 'boot', 'crossval', 'bootcv', 'bootcv', 'dual', 'dualrand', 'testset', 'testset']))
     byR = str(rng.choice(['index', 'subj', 'grp']))
     byP = str(rng.choice(['index', 'cond', 'cat']))
     nM = int(rng.integers(2, 5))
@@ -139,6 +147,11 @@ def random_rc(rng, nr, nc, thorough):
     bt = [(True, True), (True, False), (False, True)][int(rng.integers(0, 3))]
     if fam == 'fixed':
         rc.update(N=1, byR='index', byP='index', plR=9, plP=9)
+    elif fam == 'testset':
+        if bt[1] and up < 6:
+            bt = (True, False)          # >= 3 condition groups must stay undrawn: hopeless below 6 groups
+        rc.update(bootR=bt[0], bootP=bt[1], cv='testset', plR=9, plP=9, nM=min(nM, 3),
+                  byR=byR if bt[0] else 'index', byP=byP if bt[1] else 'index')
     elif fam == 'boot':
         rc.update(bootR=bt[0], bootP=bt[1], bootNc=bool(rng.integers(0, 2)), plR=9, plP=9)
         if not bt[1]:
@@ -198,7 +211,10 @@ def cond_fold_rcs(k):
             'byP': 'cond', 'bootNc': True, 'nM': 3, 'plR': 2, 'plP': 2}
     rcs = [base, dict(base, bootR=False, byR='index', byP='index', kR=2), dict(base, routine='dual', nM=2, kR=2, N=4),
            dict(base, routine='dualrand', cv='random', kR=1, kP=3), dict(base, nCv=1, kR=2, byR='grp'),
-           dict(base, routine='crossval', bootR=False, bootP=False, N=1, nCv=1, kR=2, kP=2, byR='grp', byP='index')]
+           dict(base, routine='crossval', bootR=False, bootP=False, N=1, nCv=1, kR=2, kP=2, byR='grp', byP='index'),
+           dict(base, routine='testset', cv='testset', nCv=1, kR=1, kP=1, plR=9, plP=9),
+           dict(base, routine='testset', cv='testset', nCv=1, kR=1, kP=1, plR=9, plP=9, bootR=False, byR='index', byP='cat'),
+           dict(base, routine='testset', cv='testset', nCv=1, kR=1, kP=1, plR=9, plP=9, byR='grp', byP='index')]
     return [rcs[i % len(rcs)] for i in range(k)]
 
 
@@ -288,7 +304,8 @@ def validate(ctx, const, traces, name):
 
 
 WHY_KEY = {'fit': 'b/fit-train', 'fit-method': 'b/fit-method', 'fit-keywords': 'b/fit-keywords', 'compare': 'a/compared-objects', 'ceiling': 'd/ceiling-object', 'stored': 'a/value',
-           'nc-stored': 'd/ceiling-value'}
+           'nc-stored': 'd/ceiling-value', 'ntest': 'n-test',
+           'stored-first-model': 'a/value-of-first-model'}
 MACHINERY_WHY = ('draw-not-admissible', 'sets-not-admissible', 'unknown-event')
 
 
@@ -305,11 +322,13 @@ def record_and_validate(ctx, const, n, thorough, label):
         results = [x for ch in pool.map(_run_chunk, [c for c in chunks if c]) for x in ch]
     results.sort(key=lambda x: x[0])
     traces, meta = [], []
-    stat = {'nan_samples': 0, 'ok_samples': 0, 'var_checked': 0, 'grouped': 0, 'unique': 0, 'method_sensitive': 0, 'dof_cond_smaller': 0}
+    stat = {'testset_ok_samples': 0, 'nan_samples': 0, 'ok_samples': 0, 'var_checked': 0, 'grouped': 0, 'unique': 0, 'method_sensitive': 0, 'dof_cond_smaller': 0}
     for idx, rc, var, res in results:
         ctx.count(1)
         for q in ('nan_samples', 'ok_samples', 'method_sensitive', 'dof_cond_smaller'):
             stat[q] += res['stats'].get(q, 0)
+        if rc['routine'] == 'testset':
+            stat['testset_ok_samples'] += res['stats'].get('ok_samples', 0)
         if res['stats'].get('var_kind') in ('plain', 'corrected', 'fixed'):
             stat['var_checked'] += 1
             stat['var_' + res['stats']['var_kind']] = stat.get('var_' + res['stats']['var_kind'], 0) + 1
@@ -340,14 +359,23 @@ def record_and_validate(ctx, const, n, thorough, label):
     for t in range(1, len(traces) + 1):
         idx, rc, var = meta[t - 1]
         name = EP.public_name(rc)
+        pre = 'C04/' + EP.key_prefix(rc)
         if t in acc:
             ctx.traces += 1
         elif t in rej:
             d = rej[t]
             why = d.get('why', '?')
+            if why == 'stored' and rc['routine'] == 'testset':
+                # which class: every model's column holding the evaluation of model 1 has its own key
+                fk = d.get('extra', {}).get('first', {})
+                kk_ = EP.keys(rc, const['NR'])
+                cells_ = traces[t - 1][-1]['cells']
+                k1 = tuple(fk.get('key', []))
+                if len(k1) == 5 and k1[1] > 1 and cells_[kk_.index((k1[0], 1) + k1[2:])] == fk.get('stored'):
+                    why = 'stored-first-model'
             if why in MACHINERY_WHY or why.endswith('out-of-order') or why == 'result-too-early':
                 # the event sequence itself does not follow the protocol: more / fewer calls than the protocol has
-                ctx.violation(f'C04/trace/{why}/{name}', f'recorded event sequence is not a behaviour of the protocol: {why}',
+                ctx.violation(f'{pre}trace/{why}/{name}', f'recorded event sequence is not a behaviour of the protocol: {why}',
                               {'const': const, 'rc': rc, 'variant': var, 'diag': d, 'trace': traces[t - 1][:12]})
             else:
                 if why == 'fit':
@@ -357,12 +385,12 @@ def record_and_validate(ctx, const, n, thorough, label):
                         why = 'fit-method'
                     elif any(x['desc'] != rc['byP'] or x['kw'] for v in ev_['fits'] for x in v):
                         why = 'fit-keywords'
-                ctx.violation(f'C04/{WHY_KEY.get(why, why)}/{name}',
+                ctx.violation(f'{pre}{WHY_KEY.get(why, why)}/{name}',
                               f'trace validation: event {d.get("l")} not explained by the protocol ({why})',
                               {'const': const, 'rc': rc, 'variant': var, 'diag': d,
                                'event': traces[t - 1][d['l'] - 1] if 0 < d.get('l', 0) <= len(traces[t - 1]) else None})
         else:
-            ctx.violation(f'C04/trace/stalled/{name}', 'recorded event sequence ends before the protocol is complete',
+            ctx.violation(f'{pre}trace/stalled/{name}', 'recorded event sequence ends before the protocol is complete',
                           {'const': const, 'rc': rc, 'variant': var, 'events': [e['e'] for e in traces[t - 1]]})
         if t in dofbad:
             cls = 'grouped-descriptor' if EP.grouped(rc, const['NR'], const['NC']) else 'unique-descriptor'
@@ -428,12 +456,12 @@ def run(ctx):
     thorough = ctx.tier == 'thorough'
     if thorough:
         runs = [('qa', 3, 4, 1, 'QuickA', 1), ('qb', 3, 3, 2, 'QuickB', 1), ('qc', 3, 6, 1, 'QuickC', 1),
-                ('qd', 5, 4, 1, 'QuickD', 1),
+                ('qd', 5, 4, 1, 'QuickD', 1), ('qe', 3, 6, 1, 'QuickE', 1), ('te', 3, 5, 2, 'ThorE', 6), ('tf', 4, 8, 1, 'ThorF', 3),
                 ('ta', 3, 4, 2, 'ThorA', 8), ('tb', 3, 4, 2, 'ThorB', 12), ('tc', 3, 4, 1, 'ThorC', 12),
                 ('td', 4, 6, 1, 'ThorD', 3)]
     else:
         runs = [('qa', 3, 4, 1, 'QuickA', 5), ('qb', 3, 3, 2, 'QuickB', 5), ('qc', 3, 6, 1, 'QuickC', 1),
-                ('qd', 5, 4, 1, 'QuickD', 2)]
+                ('qd', 5, 4, 1, 'QuickD', 2), ('qe', 3, 6, 1, 'QuickE', 4)]
     ctx.exhaustive = False
     total = 0
     tot = {}
@@ -469,6 +497,9 @@ def run(ctx):
     for nm in ('eval_bootstrap', 'bootstrap_crossval', 'eval_dual_bootstrap', 'eval_dual_bootstrap_random'):
         if not tot.get('dofP_' + nm):
             raise MachineryError(f'vacuous dof rule: no replay of {nm} with fewer condition groups than RDM groups')
+    # test-set routines: evaluated cells and perturbation replays happened
+    if not tot.get('testset_cells') or not tot.get('testset_perturbed'):
+        raise MachineryError(f'vacuous test-set replay: {tot}')
     # the cv routines were driven with non-default methods on models whose fitted parameters depend on the
     # method (verified by refitting for cosine), incl. a selection model choosing another candidate
     if not tot.get('method_sensitive') or not tot.get('select_sensitive'):
@@ -487,6 +518,7 @@ def run(ctx):
     ctx.extra['recorded_executions'] = nt
     ctx.extra['recorded_stats'] = st
     if not st.get('nan_samples') or not st.get('ok_samples') or not st.get('var_plain') or not st.get('var_corrected') \
-            or not st.get('grouped') or not st.get('unique') or not st.get('method_sensitive') or not st.get('dof_cond_smaller'):
+            or not st.get('grouped') or not st.get('unique') or not st.get('method_sensitive') or not st.get('dof_cond_smaller') \
+            or not st.get('testset_ok_samples'):
         raise MachineryError(f'vacuous recorded executions: {st}')
     probes(ctx)
